@@ -139,6 +139,89 @@ def sibling_scopes(rep, tier, salt='c07-siblings'):
   rep.coverage['evaluations'] = rep.coverage.get('evaluations', 0) + runs
 
 
+def record_patterns(rep, tier):
+  """Record patterns (nested, with bound, fresh and literal fields) as arguments and in unifications: every order
+  of the conjuncts must return the rows computed directly from the facts."""
+  import itertools
+  from vlib import logica_run
+  r = common.rng('c07-record-patterns')
+  n = 10 if tier == 'quick' else 150
+  runs = bad = 0
+  for _ in range(n):
+    depth = r.choice([1, 2, 2, 3])
+    # a fact: {a: i, x: {b: j, y: {c: k}}} down to `depth` levels
+    keys = [('a', 'x'), ('b', 'y'), ('c', 'z')]
+    facts = [tuple(r.randint(0, 2) for _ in range(depth)) for _ in range(r.randint(2, 5))]
+    svals = [r.randint(0, 2) for _ in range(r.randint(1, 3))]
+
+    def rec(vals, lvl=0):
+      k, nxt = keys[lvl]
+      if lvl == len(vals) - 1:
+        return '{%s: %s}' % (k, vals[lvl])
+      return '{%s: %s, %s: %s}' % (k, vals[lvl], nxt, rec(vals, lvl + 1))
+    # each level: 'bound' (a variable bound by S), 'fresh' (a new variable), 'lit' (a constant)
+    kinds = [r.choice(['bound', 'fresh', 'fresh', 'lit']) for _ in range(depth)]
+    if 'fresh' not in kinds:
+      kinds[-1] = 'fresh'
+    pat, outv, conj_extra, lits = [], [], [], {}
+    for i, kd in enumerate(kinds):
+      v = 'v%d' % i
+      if kd == 'lit':
+        lits[i] = r.randint(0, 2)
+        pat.append(str(lits[i]))
+      else:
+        pat.append(v)
+        outv.append((i, v))
+        if kd == 'bound':
+          conj_extra.append('S(%s)' % v)
+    form = r.choice(['arg', 'arg', 'unify_right', 'unify_left'])
+    if form == 'arg':
+      conj = ['T(%s)' % rec(pat)]
+    elif form == 'unify_right':
+      conj = ['T(r)', 'r == %s' % rec(pat)]
+    else:
+      conj = ['T(r)', '%s == r' % rec(pat)]
+    conj += conj_extra
+    head = ', '.join(v for _, v in outv)
+    want = []
+    for f in facts:
+      if any(f[i] != c for i, c in lits.items()):
+        continue
+      mult = 1
+      for i, kd in enumerate(kinds):
+        if kd == 'bound':
+          mult *= svals.count(f[i])
+      want += [tuple(f[i] for i, _ in outv)] * mult
+    want = sorted(want)
+    base = '@Engine("sqlite");\n' + ''.join('T(%s);\n' % rec(f) for f in facts) + ''.join('S(%d);\n' % v for v in svals)
+    orders = list(itertools.permutations(conj))
+    if len(orders) > 6:
+      orders = r.sample(orders, 6)
+    outs = []
+    for order in orders:
+      t = base + 'Q(%s) :- %s;\n' % (head, ', '.join(order))
+      st, a, b = logica_run.run_pred(t, 'Q')
+      runs += 1
+      outs.append((st, sorted(tuple(x) for x in b) if st == 'ok' else a, t))
+    if all(o[0] == 'RuleCompile' for o in outs):
+      continue      # rejected in every order: not an order question (and not this property)
+    for st, rows, t in outs:
+      if (st != 'ok' or rows != want) and bad < 3:
+        if st == 'RuleCompile':
+          key = 'record-pattern:rejected-in-some-order'
+        else:
+          key = 'record-pattern:%s' % (st if st != 'ok' else 'rows')
+        bad += 1
+        rep.violation(key, {
+            'program_text': t, 'predicate': 'Q', 'expected_rows': want, 'observed': [st, rows if st == 'ok' else str(rows)[:300]],
+            'other_orders': [[o[0], o[2].strip().split('\n')[-1]] for o in outs],
+            'law': 'the rows of a rule do not depend on the order of its conjuncts (record patterns bind their fresh '
+                   'fields and compare their bound and constant fields)',
+            'how': 'vlib.logica_run.run_pred(program_text, "Q")'})
+  rep.coverage['record_pattern_runs'] = runs
+  rep.coverage['evaluations'] = rep.coverage.get('evaluations', 0) + runs
+
+
 def run(tier, replay=None):
   rep = common.Report(PID, tier, 'other')
   rep.assumptions = [
@@ -162,4 +245,5 @@ def run(tier, replay=None):
   if not replay:
     arrival_order(rep, tier)
     sibling_scopes(rep, tier)
+    record_patterns(rep, tier)
   return rep.finish()
